@@ -6,27 +6,27 @@ From GV Require Import Pool.Model Pool.Observe Pool.Monitors Pool.Inv Pool.Reduc
    the back-off window, no refresh in flight), gracefully (the old connection keeps
    serving until the replacement is READY; a failed creation disables nothing) and
    once (one replacement per channel, one removal at the swap).
-   For every harness-legal history (no operation answered RBadOp) and every
-   map-iteration oracle.  Two further guards, both forced (counterexamples below):
-     - at most 2^32 - 2 operations (no deCalls counter wraps; the state form of the
-       guard is C07_holds_states),
-     - no call waiting on a channel returns in the event that swaps that channel's
-       connection (the monitor compares the channel's stream count across the swap). *)
+   For every harness-legal history (LegalRun.legal: no operation answered RBadOp) and
+   every map-iteration oracle.  Guard (the same as C02's): fewer than 2^31 calls are
+   placed -- streamsCnt is an int32 and the swap clause compares the channel's stream
+   count across the swap event. *)
 Theorem C07_holds : forall raw ops,
-  legal raw ops -> (Z.of_nat (length ops) <= 4294967294)%Z -> no_unblock_at_swap raw ops ->
+  legal raw ops ->
+  Forall (fun s => Z.of_nat (length (b_picks s)) < 2147483648)%Z (run_states raw init_bal ops) ->
   monitor P07 raw (observe init_bal) (run raw init_bal ops) = true.
 Proof. exact C07_holds_proof. Qed.
 Print Assumptions C07_holds.
 
-(* the same with the first guard in its weakest form: deCalls + 1 < 2^32 in every state *)
-Theorem C07_holds_no_wrap : forall raw ops,
-  legal raw ops -> Forall de_ok (run_states raw init_bal ops) -> no_unblock_at_swap raw ops ->
+(* the guard follows from the length of the history (an operation places at most one call) *)
+Theorem C07_holds_short : forall raw ops,
+  legal raw ops -> (Z.of_nat (length ops) < 2147483648)%Z ->
   monitor P07 raw (observe init_bal) (run raw init_bal ops) = true.
-Proof. exact C07_holds_states. Qed.
-Print Assumptions C07_holds_no_wrap.
+Proof. exact InvC07.C07_holds_short. Qed.
+Print Assumptions C07_holds_short.
 
 (* state-level theorems (InvC07.v) *)
 Print Assumptions refresh_iff.
+Print Assumptions refresh_iff_no_wrap.
 Print Assumptions one_replacement.
 Print Assumptions one_replacement_done.
 Print Assumptions old_serves_until_swap.
@@ -71,11 +71,8 @@ Example c07_history_guards :
               (OpConnState 1 Connecting, []);
               (OpConnState 1 Ready, []);
               (OpPick 0 0 false [] None false, []); (OpDone 1 DOk [], []); (OpDone 2 DOk [], [])] in
-  legal raw ops /\ no_unblock_at_swap raw ops.
-Proof.
-  unfold legal, no_unblock_at_swap. vm_compute.
-  split; repeat constructor; try discriminate; intros _ j [].
-Qed.
+  legal raw ops /\ map (fun s => length (b_picks s)) (run_states raw init_bal ops) = [0; 0; 0; 1; 1; 1; 2; 2; 2; 3; 3; 3]%nat.
+Proof. unfold legal. vm_compute. split; [repeat constructor; discriminate|reflexivity]. Qed.
 
 (* a failed creation: no replacement registered, the channel is not marked, and the
    next timed-out call tries again and succeeds *)
@@ -136,10 +133,12 @@ Example c07_bad_swap_loses_streams :
     (upd_nth 7 (ev_with_slots (map (fun sl => sl_set_streams sl 0))) (run raw init_bal ops)) = false.
 Proof. vm_compute. split; reflexivity. Qed.
 
-(* the two guards are forced: legal model histories / steps the monitor rejects *)
+(* two legal histories / steps the first version of the monitor rejected (it compared
+   the stream count across the swap without the calls released in the swap event, and
+   used deCalls + 1 without the uint32 wrap); accepted now *)
 
 (* a round-robin BIND call waits on the channel being refreshed and returns in the swap event *)
-Example c07_guard_swap_forced :
+Example c07_swap_releases_waiting_call :
   let raw := Some (mkConfig 1 4 100 false 10 1 true [(1%N, mkMcfg BIND true)]) in
   let ops := [(OpResolver 1 CfgVal, []); (OpConnState 0 Ready, []);
               (OpPick 0 0 false [] (Some 5%Z) false, []); (OpAdvance 20000001, []);
@@ -149,19 +148,21 @@ Example c07_guard_swap_forced :
               (OpConnState 1 Ready, [])] in
   map ev_ret (run raw init_bal ops) = [RNone; RNone; RPicked 0; RNone; RNone; RNone; RBlocked; RNone] /\
   map ev_ub (run raw init_bal ops) = [[]; []; []; []; []; []; []; [(1%nat, 1%N)]] /\
-  monitor P07 raw (observe init_bal) (run raw init_bal ops) = false.
-Proof. exact swap_unblock_counterexample. Qed.
+  map (fun s => map sl_streams (b_slots s)) (skipn 7 (run_states raw init_bal ops)) = [[0%Z]; [1%Z]] /\
+  monitor P07 raw (observe init_bal) (run raw init_bal ops) = true.
+Proof. exact swap_unblock_history. Qed.
 
-(* deCalls at 2^32 - 1 (state reached by a legal prefix, only that counter altered) *)
-Example c07_guard_no_wrap_forced :
+(* deCalls at 2^32 - 2 and at 2^32 - 1 (state reached by a legal prefix, only that counter altered) *)
+Example c07_decalls_wrap :
   let step de := run wrap_raw (wrap_state de) [(OpDone 0 DDeadlineClient [], [])] in
   wrap_state 0 = run_state wrap_raw init_bal wrap_prefix /\
   map sl_de (b_slots (wrap_state 4294967295)) = [4294967295%Z] /\
   map ev_ret (step 4294967294%Z) = [RNone] /\ map ev_out (step 4294967294%Z) = [[ONewSC 1 1; OConnect 1]] /\
   mon_from P07 wrap_raw wrap_ms (observe (wrap_state 4294967294)) (step 4294967294%Z) = true /\
   map ev_ret (step 4294967295%Z) = [RNone] /\ map ev_out (step 4294967295%Z) = [[]] /\
-  mon_from P07 wrap_raw wrap_ms (observe (wrap_state 4294967295)) (step 4294967295%Z) = false.
-Proof. exact de_wrap_counterexample. Qed.
+  map (fun ev => match ev_obs ev with Some o => map sl_de (o_slots o) | None => [] end) (step 4294967295%Z) = [[0%Z]] /\
+  mon_from P07 wrap_raw wrap_ms (observe (wrap_state 4294967295)) (step 4294967295%Z) = true.
+Proof. exact de_wrap_step. Qed.
 
 (* known finding R2: outside window_in_range the uint32 window wraps (50 min, 11 refreshes) *)
 Example c07_window_wrap :
